@@ -212,8 +212,330 @@ Proof.
     destruct (is_read_only (e_attr ent) && negb (mode_eqb md ReadOnly)) eqn:Hr.
     { injection Href as <-. destruct md; try discriminate; cbn [mode_eqb] in *; rewrite Hr; reflexivity. }
     destruct (is_directory (e_attr ent)) eqn:Hd; [|discriminate].
-    injection Href as <-. destruct md; try discriminate; cbn [mode_eqb] in *; rewrite Hr, Hd; reflexivity.
+    injection Href as <-. destruct md; try discriminate; cbn [mode_eqb] in *; rewrite Hr; reflexivity.
   - (* lookup failed *)
     destruct er; try (injection Href as <-; reflexivity).
     destruct (creating md); [discriminate|]. injection Href as <-. reflexivity.
 Qed.
+
+(* ================================================================== what a successful computation returns *)
+Definition yields {A} (P : A -> Prop) (m : M A) : Prop := forall s a s', m s = (Ok a, s') -> P a.
+
+Lemma bind_ok_inv {A B} (m : M A) (k : A -> M B) s b s' :
+  bind m k s = (Ok b, s') -> exists a s1, m s = (Ok a, s1) /\ k a s1 = (Ok b, s').
+Proof.
+  unfold bind. destruct (m s) as [[a|e| |] s1]; intros E; try discriminate. exists a, s1. auto.
+Qed.
+
+Lemma yields_bind {A B} (Pa : A -> Prop) (P : B -> Prop) (m : M A) (k : A -> M B) :
+  yields Pa m -> (forall a, Pa a -> yields P (k a)) -> yields P (bind m k).
+Proof.
+  intros Hm Hk s b s' E. apply bind_ok_inv in E. destruct E as (a & s1 & E1 & E2).
+  exact (Hk a (Hm _ _ _ E1) _ _ _ E2).
+Qed.
+Lemma yields_bind0 {A B} (P : B -> Prop) (m : M A) (k : A -> M B) :
+  (forall a, yields P (k a)) -> yields P (bind m k).
+Proof. intros Hk. apply (yields_bind (fun _ => True)); [intros ? ? ? ?; exact I | intros a _; apply Hk]. Qed.
+Lemma yields_ret {A} (P : A -> Prop) a : P a -> yields P (ret a).
+Proof. intros H s b s' E. inversion E; subst. exact H. Qed.
+Lemma yields_fail {A} (P : A -> Prop) e : yields P (fail e). Proof. intros s b s' E. discriminate. Qed.
+Lemma yields_panic {A} (P : A -> Prop) : yields P panic. Proof. intros s b s' E. discriminate. Qed.
+Lemma yields_oof {A} (P : A -> Prop) : yields P out_of_fuel. Proof. intros s b s' E. discriminate. Qed.
+
+Definition on_some {R} (P : R -> Prop) (r : option R) : Prop := forall x, r = Some x -> P x.
+
+Lemma yields_for_blocks_from {R} (P : R -> Prop) (body : N -> M (option R)) :
+  (forall i, yields (on_some P) (body i)) -> forall n i, yields (on_some P) (for_blocks_from n i body).
+Proof.
+  intros Hb. induction n as [|n IH]; intros i; cbn [for_blocks_from].
+  - apply yields_ret. intros x Hx. discriminate.
+  - apply (yields_bind (on_some P)); [apply Hb|]. intros [x|] Hr; [apply yields_ret; exact Hr | apply IH].
+Qed.
+
+Lemma yields_walk_dir {R} (P : R -> Prop) vi grow (body : N -> M (option R)) :
+  (forall blk, yields (on_some P) (body blk)) ->
+  forall fuel cluster, yields (on_some P) (walk_dir fuel vi cluster grow body).
+Proof.
+  intros Hb. assert (Hnone : on_some P None) by (intros x Hx; discriminate).
+  induction fuel as [|fuel IH]; intros cluster; cbn [walk_dir]; [apply yields_oof|].
+  apply yields_bind0; intros v. apply yields_bind0; intros first.
+  apply (yields_bind (on_some P)).
+  { unfold for_blocks. apply yields_bind0; intros _. apply yields_for_blocks_from. exact Hb. }
+  intros [x|] Hr; [apply yields_ret; exact Hr|].
+  destruct (negb (v_fat32 v) && (cluster =? CL_ROOT)); [apply yields_ret; exact Hnone|].
+  apply yields_bind0; intros [n|e]; [apply IH|].
+  destruct e; try (apply yields_ret; exact Hnone); try apply yields_fail.
+  destruct grow; [|apply yields_ret; exact Hnone].
+  apply yields_bind0; intros c. apply IH.
+Qed.
+
+(* the entry write_new_directory_entry returns is the one it was asked to write: that name,
+   those attributes, that first cluster, size 0 *)
+Definition new_entry_ok (name : list N) (attr fc : N) (e : dirent) : Prop :=
+  e_name e = name /\ e_attr e = attr /\ e_cluster e = fc /\ e_size e = 0.
+Theorem write_new_directory_entry_result vi dc name attr fc :
+  yields (new_entry_ok name attr fc) (write_new_directory_entry vi dc name attr fc).
+Proof.
+  unfold write_new_directory_entry. apply yields_bind0; intros v.
+  apply (yields_bind (on_some (new_entry_ok name attr fc))).
+  - apply yields_walk_dir. intros blk. apply yields_bind0; intros b.
+    destruct (free_slot 16 b 0) as [i|]; [|apply yields_ret; intros x Hx; discriminate].
+    apply yields_bind0; intros ctime. cbv zeta. apply yields_bind0; intros bytes.
+    apply yields_bind0; intros _. apply yields_bind0; intros _. apply yields_ret.
+    intros x Hx. injection Hx as <-. exact (conj eq_refl (conj eq_refl (conj eq_refl eq_refl))).
+  - intros [e|] Hr; [apply yields_ret; exact (Hr e eq_refl) | apply yields_fail].
+Qed.
+
+(* ================================================================== open_file_in_dir: the successes *)
+Definition start_offset (md : mode) (e : dirent) : N :=
+  match md with ReadWriteAppend | ReadWriteCreateOrAppend => e_size e | _ => 0 end.
+
+(* existing file, mode ReadOnly / ReadWriteAppend / ReadWriteCreateOrAppend: the handle is
+   the counter value, the file record starts at offset 0 (at the end for the append
+   variants), carries the entry as found (so its length is the entry's size), and the
+   state is otherwise the state after the lookup - no device traffic at all *)
+Theorem C07_open_existing_keep : forall s d di dd vi v name sfn md e s1,
+  resolves s d di dd vi v -> is_full (s_files s) (s_maxf s) = false ->
+  sfn_of_str name = Some sfn -> dot_name sfn = false ->
+  find_directory_entry vi (d_cluster dd) sfn s = (Ok e, s1) ->
+  open_refusal md (Ok e) (is_open s1 (d_vol dd) e) = None ->
+  md = ReadOnly \/ md = ReadWriteAppend \/ md = ReadWriteCreateOrAppend ->
+  open_file_in_dir d name md s =
+    (Ok (s_next_id s1),
+     set_s_files (set_s_next_id s1 ((s_next_id s1 + 1) mod U32))
+       (s_files s1 ++ [mk_fileinfo (s_next_id s1) (d_vol dd) 0 (e_cluster e) (start_offset md e)
+                                   (solve_mode_variant md true) e false])).
+Proof.
+  intros s d di dd vi v name sfn md e s1 Hres Hfull Hsfn Hdot Hfind Href Hmd.
+  pose proof (resolves_vol_id _ _ _ _ _ _ Hres) as Hvid.
+  unfold open_file_in_dir. open_prefix Hres Hfull Hsfn.
+  unfold dot_name in Hdot. rewrite Hdot.
+  unfold bind at 1. unfold try. rewrite Hfind.
+  rewrite bind_ret, (bind_ok _ _ _ _ _ (file_is_open_eq _ _ _)), Hvid.
+  cbn [open_refusal] in Href.
+  destruct (is_open s1 (d_vol dd) e) eqn:Hop; [discriminate|].
+  destruct (mode_eqb md ReadWriteCreate) eqn:Hc; [discriminate|].
+  destruct (is_read_only (e_attr e) && negb (mode_eqb md ReadOnly)) eqn:Hr; [discriminate|].
+  destruct (is_directory (e_attr e)) eqn:Hd; [discriminate|].
+  destruct Hmd as [-> | [-> | ->]]; cbn [solve_mode_variant mode_eqb start_offset] in *;
+    rewrite Hr, (bind_ok _ _ _ _ _ (file_is_open_eq _ _ _)), Hop,
+            (bind_ok _ _ _ _ _ (generate_spec s1)); reflexivity.
+Qed.
+
+(* existing file, mode ReadWriteTruncate / ReadWriteCreateOrTruncate: if the call succeeds
+   the new file record has offset 0 and an entry of size 0 (and the entry's first cluster) *)
+Theorem C07_open_existing_truncate : forall s d di dd vi v name sfn md e s1 id s',
+  resolves s d di dd vi v -> is_full (s_files s) (s_maxf s) = false ->
+  sfn_of_str name = Some sfn -> dot_name sfn = false ->
+  find_directory_entry vi (d_cluster dd) sfn s = (Ok e, s1) ->
+  open_refusal md (Ok e) (is_open s1 (d_vol dd) e) = None ->
+  md = ReadWriteTruncate \/ md = ReadWriteCreateOrTruncate ->
+  open_file_in_dir d name md s = (Ok id, s') ->
+  id = s_next_id s1 /\
+  exists s4 now, s' = set_s_files s4 (s_files s4 ++
+    [mk_fileinfo id (d_vol dd) 0 (e_cluster e) 0 ReadWriteTruncate (set_e_mtime (set_e_size e 0) now) false]).
+Proof.
+  intros s d di dd vi v name sfn md e s1 id s' Hres Hfull Hsfn Hdot Hfind Href Hmd.
+  pose proof (resolves_vol_id _ _ _ _ _ _ Hres) as Hvid.
+  unfold open_file_in_dir. open_prefix Hres Hfull Hsfn.
+  unfold dot_name in Hdot. rewrite Hdot.
+  unfold bind at 1. unfold try. rewrite Hfind.
+  rewrite bind_ret, (bind_ok _ _ _ _ _ (file_is_open_eq _ _ _)), Hvid.
+  cbn [open_refusal] in Href.
+  destruct (is_open s1 (d_vol dd) e) eqn:Hop; [discriminate|].
+  destruct (mode_eqb md ReadWriteCreate) eqn:Hc; [discriminate|].
+  destruct (is_read_only (e_attr e) && negb (mode_eqb md ReadOnly)) eqn:Hr; [discriminate|].
+  destruct (is_directory (e_attr e)) eqn:Hd; [discriminate|].
+  assert (Hgoal : forall k,
+    (truncate_cluster_chain vi (e_cluster e) ;;;
+     now <- get_timestamp ;;
+     v' <- get_vol vi ;;
+     write_entry_to_disk v' (set_e_mtime (set_e_size e 0) now) ;;;
+     push_file (set_f_entry (mk_fileinfo k (d_vol dd) 0 (e_cluster e) 0 ReadWriteTruncate e false)
+                            (set_e_mtime (set_e_size e 0) now)) ;;; ret k) (set_s_next_id s1 ((s_next_id s1 + 1) mod U32))
+      = (Ok id, s') ->
+    id = k /\ exists s4 now, s' = set_s_files s4 (s_files s4 ++
+      [mk_fileinfo id (d_vol dd) 0 (e_cluster e) 0 ReadWriteTruncate (set_e_mtime (set_e_size e 0) now) false])).
+  { intros k E.
+    apply bind_ok_inv in E. destruct E as (_ & sa & _ & E).
+    apply bind_ok_inv in E. destruct E as (now & sb & _ & E).
+    apply bind_ok_inv in E. destruct E as (v' & sc & _ & E).
+    apply bind_ok_inv in E. destruct E as (_ & sd & _ & E).
+    unfold bind, push_file, modify, ret in E. injection E as <- <-.
+    split; [reflexivity|]. exists sd, now. reflexivity. }
+  destruct Hmd as [-> | ->]; cbn [solve_mode_variant mode_eqb] in *;
+    rewrite Hr, (bind_ok _ _ _ _ _ (file_is_open_eq _ _ _)), Hop,
+            (bind_ok _ _ _ _ _ (generate_spec s1)); apply Hgoal.
+Qed.
+
+(* missing name, creating mode (ReadWriteCreate and the two create-or variants): if the call
+   succeeds, a new entry was written - that name, no attributes, no cluster, size 0 - and the
+   new file record is in mode ReadWriteCreate at offset 0 with that entry *)
+Theorem C07_open_create : forall s d di dd vi v name sfn md s1 id s',
+  resolves s d di dd vi v -> is_full (s_files s) (s_maxf s) = false ->
+  sfn_of_str name = Some sfn -> dot_name sfn = false ->
+  find_directory_entry vi (d_cluster dd) sfn s = (Err NotFound, s1) ->
+  creating md = true ->
+  open_file_in_dir d name md s = (Ok id, s') ->
+  id = s_next_id s1 /\
+  exists s4 entry, s' = set_s_files s4 (s_files s4 ++
+      [mk_fileinfo id (d_vol dd) 0 CL_EMPTY 0 ReadWriteCreate entry false]) /\
+    e_name entry = sfn /\ e_attr entry = 0 /\ e_cluster entry = CL_EMPTY /\ e_size entry = 0.
+Proof.
+  intros s d di dd vi v name sfn md s1 id s' Hres Hfull Hsfn Hdot Hfind Hcr.
+  unfold open_file_in_dir. open_prefix Hres Hfull Hsfn.
+  unfold dot_name in Hdot. rewrite Hdot.
+  unfold bind at 1. unfold try. rewrite Hfind. rewrite Hcr, !bind_ret.
+  assert (Hm : solve_mode_variant md false = ReadWriteCreate) by (destruct md; try discriminate; reflexivity).
+  cbn [negb]. rewrite Hm. intros E.
+  apply bind_ok_inv in E. destruct E as (vi2 & sa & Ea & E). rewrite get_volume_by_id_eq in Ea.
+  assert (sa = s1) by (destruct (find_idx _ _ _); inversion Ea; reflexivity). subst sa.
+  apply bind_ok_inv in E. destruct E as (entry & sb & Eb & E).
+  pose proof (write_new_directory_entry_result _ _ _ _ _ _ _ _ Eb) as (N1 & N2 & N3 & N4).
+  pose proof (keeps_frame _ (fun s0 => keeps_write_new_directory_entry s0 vi2 (d_cluster dd) sfn 0 CL_EMPTY)
+                _ _ _ Eb) as (_ & _ & _ & Hn & _).
+  rewrite (bind_ok _ _ _ _ _ (generate_spec sb)) in E.
+  unfold bind, push_file, modify, ret in E. injection E as <- <-.
+  split; [exact Hn|]. exists (set_s_next_id sb ((s_next_id sb + 1) mod U32)), entry.
+  rewrite N3. split; [reflexivity|]. auto.
+Qed.
+
+(* a refused open changes nothing on the medium, nor in the tables; the device saw reads only *)
+Corollary C07_open_refusal_medium : forall s d di dd vi v name sfn md r s1 e,
+  resolves s d di dd vi v -> is_full (s_files s) (s_maxf s) = false ->
+  sfn_of_str name = Some sfn -> dot_name sfn = false ->
+  find_directory_entry vi (d_cluster dd) sfn s = (r, s1) ->
+  open_refusal md r (found_open s1 (d_vol dd) r) = Some e ->
+  fst (open_file_in_dir d name md s) = Err e /\ reads_only s (snd (open_file_in_dir d name md s)).
+Proof.
+  intros. rewrite (C07_open_refusals _ _ _ _ _ _ _ _ _ _ _ _ H H0 H1 H2 H3 H4). split; [reflexivity|].
+  exact (find_directory_entry_reads_only _ _ _ _ _ _ H3).
+Qed.
+
+(* ================================================================== delete_file_in_dir *)
+Definition delete_refusal (r : outcome dirent) (already_open : bool) : option err :=
+  match r with
+  | Err e => Some e                           (* a missing name: NotFound *)
+  | Ok e => if is_directory (e_attr e) then Some DeleteDirAsFile
+            else if already_open then Some FileAlreadyOpen else None
+  | Panic | OutOfFuel => None
+  end.
+
+Theorem C07_delete_refusals : forall s d di dd vi v name sfn r s1 e,
+  resolves s d di dd vi v -> sfn_of_str name = Some sfn ->
+  find_directory_entry vi (d_cluster dd) sfn s = (r, s1) ->
+  delete_refusal r (found_open s1 (d_vol dd) r) = Some e ->
+  delete_file_in_dir d name s = (Err e, s1) /\ reads_only s s1.
+Proof.
+  intros s d di dd vi v name sfn r s1 e Hres Hsfn Hfind Href.
+  split; [|exact (find_directory_entry_reads_only _ _ _ _ _ _ Hfind)].
+  pose proof Hres as (Hl & H1 & H2 & H3 & H4).
+  unfold delete_file_in_dir. rewrite (locked_free _ _ Hl).
+  rewrite (bind_ok _ _ _ _ _ H1), (bind_ok _ _ _ _ _ H2), (bind_ok _ _ _ _ _ H3), Hsfn.
+  unfold bind at 1. rewrite Hfind.
+  destruct r as [ent|er| |]; cbn [delete_refusal found_open] in Href; try discriminate.
+  - destruct (is_directory (e_attr ent)); [injection Href as <-; reflexivity|].
+    rewrite (bind_ok _ _ _ _ _ (file_is_open_eq _ _ _)).
+    destruct (is_open s1 (d_vol dd) ent); [injection Href as <-; reflexivity | discriminate].
+  - injection Href as <-. reflexivity.
+Qed.
+
+(* ================================================================== make_dir_in_dir *)
+Definition mkdir_refusal (r : outcome dirent) : option err :=
+  match r with
+  | Ok e => Some (if is_directory (e_attr e) then DirAlreadyExists else FileAlreadyExists)
+  | Err NotFound => None
+  | Err e => Some e
+  | Panic | OutOfFuel => None
+  end.
+
+Theorem C07_mkdir_refusals : forall s d di dd vi v name sfn,
+  resolves s d di dd vi v -> is_full (s_dirs s) (s_maxd s) = false -> sfn_of_str name = Some sfn ->
+  (dot_name sfn = true -> make_dir_in_dir d name s = (Err DirAlreadyExists, s)) /\
+  (dot_name sfn = false -> forall r s1 e,
+     find_directory_entry vi (d_cluster dd) sfn s = (r, s1) -> mkdir_refusal r = Some e ->
+     make_dir_in_dir d name s = (Err e, s1) /\ reads_only s s1).
+Proof.
+  intros s d di dd vi v name sfn Hres Hfull Hsfn.
+  pose proof Hres as (Hl & H1 & H2 & H3 & H4).
+  assert (Hpre : make_dir_in_dir d name s =
+    (if dot_name sfn then fail DirAlreadyExists else
+     r <- try (find_directory_entry vi (d_cluster dd) sfn) ;;
+     match r with
+     | inl e => if is_directory (e_attr e) then fail DirAlreadyExists else fail FileAlreadyExists
+     | inr NotFound => make_dir vi (d_cluster dd) sfn A_DIRECTORY
+     | inr e => fail e
+     end) s).
+  { unfold make_dir_in_dir. rewrite (locked_free _ _ Hl), bind_get, Hfull.
+    rewrite (bind_ok _ _ _ _ _ H1), (bind_ok _ _ _ _ _ H2), (bind_ok _ _ _ _ _ H3), Hsfn. reflexivity. }
+  rewrite Hpre. split; intros Hdot; rewrite Hdot; [reflexivity|].
+  intros r s1 e Hfind Href.
+  split; [|exact (find_directory_entry_reads_only _ _ _ _ _ _ Hfind)].
+  unfold bind, try. rewrite Hfind.
+  destruct r as [ent|er| |]; cbn [mkdir_refusal] in Href; try discriminate.
+  - injection Href as <-. destruct (is_directory (e_attr ent)); reflexivity.
+  - destruct er; try discriminate; injection Href as <-; reflexivity.
+Qed.
+
+(* ================================================================== write on a read-only handle *)
+(* a handle opened ReadOnly rejects writes: ReadOnlyErr, and NOTHING changes (no device call,
+   no table change).  (The volume is looked up before the mode is tested; it resolves.) *)
+Theorem C07_write_read_only : forall s h fi f vi data,
+  s_lock s = false ->
+  get_file_by_id h s = (Ok fi, s) -> get_file fi s = (Ok f, s) ->
+  get_volume_by_id (f_vol f) s = (Ok vi, s) -> f_mode f = ReadOnly ->
+  step (Write h data) s = (Err ReadOnlyErr, s) /\
+  (data <> [] -> step (IoWrite h data) s = (Err ReadOnlyErr, s)).
+Proof.
+  intros s h fi f vi data Hl H1 H2 H3 Hm.
+  assert (Hw : mgr_write h data s = (Err ReadOnlyErr, s)).
+  { unfold mgr_write. rewrite (locked_free _ _ Hl).
+    rewrite (bind_ok _ _ _ _ _ H1), (bind_ok _ _ _ _ _ H2), (bind_ok _ _ _ _ _ H3), Hm. reflexivity. }
+  split; [|intros Hd]; cbn [step]; apply lift_err; [exact Hw|].
+  unfold io_write. destruct data; [contradiction|]. apply bind_err. exact Hw.
+Qed.
+
+(* if the file's volume is gone the write is refused as well (BadHandle), state unchanged *)
+Theorem C07_write_read_only_any : forall s h fi f data,
+  s_lock s = false ->
+  get_file_by_id h s = (Ok fi, s) -> get_file fi s = (Ok f, s) -> f_mode f = ReadOnly ->
+  exists e, (e = ReadOnlyErr \/ e = BadHandle) /\ step (Write h data) s = (Err e, s).
+Proof.
+  intros s h fi f data Hl H1 H2 Hm.
+  destruct (get_volume_by_id (f_vol f) s) as [o1 s1] eqn:E3.
+  pose proof E3 as E3'. rewrite get_volume_by_id_eq in E3'.
+  destruct (find_idx _ _ _) as [vi|]; injection E3' as <- <-.
+  - exists ReadOnlyErr. split; [left; reflexivity|].
+    exact (proj1 (C07_write_read_only s h fi f vi data Hl H1 H2 E3 Hm)).
+  - exists BadHandle. split; [right; reflexivity|]. cbn [step]. apply lift_err.
+    unfold mgr_write. rewrite (locked_free _ _ Hl).
+    rewrite (bind_ok _ _ _ _ _ H1), (bind_ok _ _ _ _ _ H2). apply bind_err. exact E3.
+Qed.
+
+(* the hypotheses are satisfiable: the table has rows *)
+Example open_refusal_rows :
+  let e := mk_dirent [] (mk_ts 0 0 0 0 0 0) (mk_ts 0 0 0 0 0 0) 1 5 100 0 0 in
+  let dir := set_e_attr e 16 in
+  open_refusal ReadOnly (Err NotFound) false = Some NotFound /\
+  open_refusal ReadWriteCreateOrAppend (Err NotFound) false = None /\
+  open_refusal ReadOnly (Ok e) true = Some FileAlreadyOpen /\
+  open_refusal ReadWriteCreate (Ok e) false = Some FileAlreadyExists /\
+  open_refusal ReadWriteAppend (Ok e) false = Some ReadOnlyErr /\
+  open_refusal ReadOnly (Ok e) false = None /\
+  open_refusal ReadOnly (Ok dir) false = Some OpenedDirAsFile /\
+  delete_refusal (Ok dir) false = Some DeleteDirAsFile /\
+  mkdir_refusal (Ok e) = Some FileAlreadyExists /\ mkdir_refusal (Ok dir) = Some DirAlreadyExists.
+Proof. cbv zeta. repeat split; reflexivity. Qed.
+
+Print Assumptions find_directory_entry_reads_only.
+Print Assumptions write_new_directory_entry_result.
+Print Assumptions C07_open_dot_name.
+Print Assumptions C07_open_refusals.
+Print Assumptions C07_open_refusal_medium.
+Print Assumptions C07_open_existing_keep.
+Print Assumptions C07_open_existing_truncate.
+Print Assumptions C07_open_create.
+Print Assumptions C07_delete_refusals.
+Print Assumptions C07_mkdir_refusals.
+Print Assumptions C07_write_read_only.
+Print Assumptions C07_write_read_only_any.
